@@ -29,6 +29,13 @@ fn parse_modified_hdrs(
     req_hdrs: &HeaderMap,
     last_modified: Option<SystemTime>,
 ) -> Result<(bool, bool), &'static str> {
+    // HTTP-dates (including the `Last-Modified` we send) have one-second resolution, so compare
+    // the modification time truncated to the second; otherwise a client echoing our own
+    // `Last-Modified` would never match an entity with a sub-second modification time.
+    let last_modified = last_modified.map(|m| match m.duration_since(SystemTime::UNIX_EPOCH) {
+        Ok(d) => SystemTime::UNIX_EPOCH + std::time::Duration::from_secs(d.as_secs()),
+        Err(_) => m,
+    });
     let precondition_failed = if !etag::any_match(etag, req_hdrs)? {
         true
     } else if let (Some(ref m), Some(since)) =
